@@ -316,6 +316,9 @@ def name_queries(cps):
         yield f"$[?@ == {dq}]", [name, "a", 1]
         if c <= 0xFFFF:
             yield "$['\\u%04x']" % c, {ch: 1}
+            if c < 0x100 or c % 64 == 11:
+                yield "$['\\u%04X']" % c, {ch: 1}
+                yield '$[?@ == "\\u%04X"]' % c, [ch, "x"]
             if rp.is_name_first(ch):
                 yield f"$.{ch}", {ch: 1}
                 yield f"$[?@.{ch}a == '{ch}']".replace("'''", "'\\''"), [{ch + "a": ch}]
